@@ -445,7 +445,12 @@ class Fn:
         last = i == len(stmts) - 1
         k = st["k"]
         if k == "Item":
-            return s.seq(stmts, i + 1, kend)
+            # an item declared inside a body can change what the rest of the body means (a nested macro_rules!, use, fn ...):
+            # only constants are understood
+            if "const" in st:
+                s.local_consts = dict(s.local_consts, **{st["const"]: st["e"]})
+                return s.seq(stmts, i + 1, kend)
+            raise Unsupported("item declared inside a function body: " + st.get("text", "")[:60])
         if k == "Local":
             if st["else"] is not None or st["init"] is None:
                 raise Unsupported("let-else / uninitialised let")
@@ -681,12 +686,12 @@ class Fn:
         if p[-2:] == ["Poll", "Pending"]:
             return k("PPending", ("poll", None))
         cname = p[-1] if (len(p) == 1 or p[:-1] == ["Self"]) else None
-        if cname and cname in s.tr.consts and cname not in s.env:
+        if cname and (cname in s.tr.consts or cname in s.local_consts) and cname not in s.env:
             if cname in s.const_stack:
                 raise Unsupported("recursive constant " + cname)
             s.const_stack.append(cname)
             try:
-                return s.expr(s.tr.consts[cname], k)
+                return s.expr(s.local_consts.get(cname) or s.tr.consts[cname], k)
             finally:
                 s.const_stack.pop()
         if len(p) == 1:
@@ -1282,6 +1287,7 @@ class Fn:
         raise Unsupported("call of " + key)
 
     post = None
+    local_consts = {}
     const_stack = []
     loop_depth = 0        # 1 while translating statements that belong directly to a for / loop body (not to a nested join)
     backing = {}      # rb local made by ReadBuf::new(<alias of an outer ReadBuf>) -> (outer variable, view atom)
